@@ -100,7 +100,7 @@ def random_ldpc(rng, count, kmax, cbs=(None,), apis=("recv", "setavail"), payloa
     return execs
 
 
-def threshold_ldpc(rng, count, apis=("recv", "setavail"), finish=True, cbs=(None,)):
+def threshold_ldpc(rng, count, apis=("recv", "setavail"), finish=True, cbs=(None,), mid=False):
     """many small codes (fresh k, n-k, N1, seed each time) x received sets whose size is at the decoding threshold
     (k-1 .. k+3): the regime in which peeling gets somewhere, stalls, and the ML step sees a partly solved system.
     Executions are tiny, so a quick run affords hundreds of codes."""
@@ -108,9 +108,15 @@ def threshold_ldpc(rng, count, apis=("recv", "setavail"), finish=True, cbs=(None
     for _ in range(count):
         k = rng.randint(2, 14)
         r = rng.randint(3, 14)
+        if mid:     # residual systems of 32, 64 ... unknowns (machine-word boundaries of the dense solver) need n-k >= 32
+            k = rng.randint(20, 70)
+            r = rng.randint(32, 72)
         n1 = rng.randint(3, min(r, 5))
         seed = rng.choice([1, 1, 2, 3, rng.randint(1, 2 ** 31 - 2)])
-        p = P(3, k, r, N1=n1, seed=seed)
+        p = P(3, k, r, N1=n1, seed=seed, payload="rnd" if mid and rng.random() < 0.5 else "id",
+              length=rng.choice([1, 3, 8, 16, 33]) if mid else None)
+        if p.payload == "id":
+            p = P(3, k, r, N1=n1, seed=seed)
         size = min(p.n, max(1, k + rng.choice([-1, 0, 0, 1, 1, 2, 3])))
         if rng.random() < 0.5:
             sub = rng.sample(range(p.n), size)
@@ -422,6 +428,7 @@ def workload(pid, tier, rng):
         execs += random_rs(rng, 300 if q else 3000, 40 if q else 255, cbs=cbs_all)
         execs += random_rs(rng, 20 if q else 300, 255, cbs=(None, "buf"), payloads=("rnd",))
         execs += big_symbols(rng, 36 if q else 600, cbs=cbs_all)
+        execs += threshold_ldpc(rng, 150 if q else 3000, mid=True, cbs=cbs_all)
     elif pid == "C02":
         execs += rs_exhaustive(rs_small, rng, apis=("recv", "setavail"), orders=2 if q else 4, probe="each")
         execs += rs_exhaustive(rs_mid, rng, apis=("recv", "setavail"), orders=1, probe="end", maxsub=150 if q else 1500)
@@ -440,6 +447,7 @@ def workload(pid, tier, rng):
         execs += ldpc_exhaustive(ld_mid, rng, apis=("recv",), finish=(True,), orders=1, probe="end", maxsub=800 if q else 8000)
         execs += dense_ldpc(rng, 100 if q else 1500, finish_choices=(True,), probe="end")
         execs += threshold_ldpc(rng, 800 if q else 12000)
+        execs += threshold_ldpc(rng, 150 if q else 3000, mid=True)
         execs += big_ldpc(rng, [350, 600] if q else [350, 600, 1100, 2500, 6000])
         for sd in (1, 7, 12345):
             ex = random_ldpc(rng, 60 if q else 600, 48 if q else 64, apis=("recv", "setavail"), finish_choices=(True,),
@@ -453,6 +461,7 @@ def workload(pid, tier, rng):
         execs += random_ldpc(rng, 8 if q else 60, 300, apis=("recv",), finish_choices=(False,), probe_choices=("end",),
                              payloads=("id",), dup=False)
         execs += dense_ldpc(rng, 200 if q else 3000)
+        execs += threshold_ldpc(rng, 800 if q else 12000, apis=("recv",), finish=False)
         execs += [e for e in big_ldpc(rng, [450, 800] if q else [450, 800, 1500, 3000], finish=False)]
     elif pid == "C10":
         execs += ldpc_exhaustive(ld_small[:4 if q else 8], rng, apis=("recv", "setavail"), finish=(True,), orders=1, probe="each")
